@@ -43,6 +43,8 @@
 using namespace vt;
 using namespace tg;
 
+static const char decs_[] = {'.', ',', ',', '.', ';'};
+static const char scis_[] = {'e', 'E', 'e', 'd', 'x'};
 static volatile size_t g_sink = 0;
 // results are consumed the way a caller would: strings are copied and read through
 static void sink(const std::string& s)
@@ -124,8 +126,8 @@ static std::vector<Entry> entries()
   namespace TT = bpp::TextTools;
   using namespace bpp;
   std::vector<Entry> e;
-  static const char decs[] = {'.', ','};
-  static const char scis[] = {'e', 'E'};
+  static const char decs[] = {'.', ',', ',', '.', ';'};
+  static const char scis[] = {'e', 'E', 'e', 'd', 'x'};
 
   e.push_back({"tt.spaces", "a \t\n\r", 1, K_WORDS, [](const std::string& s, int) {
                  sink(TT::isEmpty(s) ? 1u : 0u);
@@ -139,10 +141,10 @@ static std::vector<Entry> entries()
                  sink(TT::removeLastNewLines(s));
                  sink(TT::removeChar(s, s.empty() ? 'a' : s[0]));
                }});
-  e.push_back({"tt.isDecimalNumber", "01-+.,eE x", 2, K_NUMBER, [](const std::string& s, int v) { sink(TT::isDecimalNumber(s, decs[v], scis[v]) ? 1u : 0u); }});
-  e.push_back({"tt.isDecimalInteger", "01-+.eE x", 2, K_NUMBER, [](const std::string& s, int v) { sink(TT::isDecimalInteger(s, scis[v]) ? 1u : 0u); }});
-  e.push_back({"tt.toDouble", "019-+.,eE", 2, K_NUMBER, [](const std::string& s, int v) { sink(TT::toDouble(s, decs[v], scis[v])); }});
-  e.push_back({"tt.toInt", "019-+.eE", 2, K_NUMBER, [](const std::string& s, int v) { sink(static_cast<size_t>(TT::toInt(s, scis[v]))); }});
+  e.push_back({"tt.isDecimalNumber", "01-+.,eE x", 5, K_NUMBER, [](const std::string& s, int v) { sink(TT::isDecimalNumber(s, decs[v], scis[v]) ? 1u : 0u); }});
+  e.push_back({"tt.isDecimalInteger", "01-+.eE x", 5, K_NUMBER, [](const std::string& s, int v) { sink(TT::isDecimalInteger(s, scis[v]) ? 1u : 0u); }});
+  e.push_back({"tt.toDouble", "019-+.,eE", 5, K_NUMBER, [](const std::string& s, int v) { sink(TT::toDouble(s, decs[v], scis[v])); }});
+  e.push_back({"tt.toInt", "019-+.eE", 5, K_NUMBER, [](const std::string& s, int v) { sink(static_cast<size_t>(TT::toInt(s, scis[v]))); }});
   e.push_back({"tt.fromString", "019-+.e x", 3, K_NUMBER, [](const std::string& s, int v) {
                  if (v == 0) sink(static_cast<size_t>(TT::to<int>(s)));
                  else if (v == 1) sink(TT::to<double>(s));
@@ -590,6 +592,9 @@ int main(int argc, char** argv)
     else if (en->kind == K_NUMBER)
     {
       for (const auto& v : longDigitNumbers()) d.push_back(v);
+      // extreme magnitudes spelled in every (decimal separator, exponent character) style of the variants
+      for (size_t k = 0; k < 5; ++k)
+        for (const auto& v : dictStyledNumbers(decs_[k], scis_[k])) d.push_back(v);
       for (const auto& v : extremeValues())
       {
         d.push_back(v);
